@@ -570,7 +570,7 @@ def compare_case(ctx, ci, c, a, b, stats):
             sv = c["solve"]
             B = colloc(c["k"], c["t"], sv["tau"], sv["left_n"], sv["right_n"])
             n = len(c["t"]) - c["k"]
-            if len(B) != n:
+            if sv.get("lsq") or len(B) != n:      # allow_lsq solves the normal equations even for a square system
                 B = [[sum(B[r][i] * B[r][j] for r in range(len(B))) for j in range(n)] for i in range(n)]
             cnd = cond_inf(B)
             _TOL["rt"] = min(1e-3, 1e-9 + 1e-13 * cnd) if cnd == cnd else 1e-3
